@@ -84,6 +84,42 @@ type expWatch struct {
 	future string
 	mu     sync.Mutex
 	atEnd  map[string]bool // key -> datum present when the refreshing line finished
+	// curKey is the key of the refreshing line the program's VM is executing
+	// (only touched by that VM's goroutine); atLookup records whether the
+	// datum was in the metric when that line's dload ran.
+	curKey   string
+	atLookup map[string]bool
+}
+
+func (w *expWatch) present(k string) bool {
+	if m := w.store.FindMetricOrNil("exp", w.prog); m != nil {
+		m.RLock()
+		defer m.RUnlock()
+		return m.FindLabelValueOrNil([]string{k}) != nil
+	}
+	return false
+}
+
+func (w *expWatch) lineStart(name string, l *logline.LogLine) {
+	if name != w.prog {
+		return
+	}
+	w.curKey = ""
+	if f := strings.Fields(l.Line); len(f) == 3 && f[0] == "X" && f[2] == w.future {
+		w.curKey = f[1]
+	}
+}
+
+func (w *expWatch) onInstr(i *vm.VerifInstr) {
+	if i.VMName != w.prog || w.curKey == "" || i.Instr.Opcode != code.Dload {
+		return
+	}
+	p := w.present(w.curKey)
+	w.mu.Lock()
+	if _, seen := w.atLookup[w.curKey]; !seen {
+		w.atLookup[w.curKey] = p
+	}
+	w.mu.Unlock()
 }
 
 var watch atomic.Pointer[expWatch]
@@ -370,7 +406,7 @@ func oneRun(t *testing.T, r *ev.Run, g *ev.RNG, run int, withReload bool) runRes
 	// 1970 (collectable at once) and, a few lines later, stamped ten hours
 	// ahead (not collectable any more).
 	future := time.Now().Add(10 * time.Hour).Unix()
-	w := &expWatch{store: store, prog: names[3], future: fmt.Sprint(future), atEnd: map[string]bool{}}
+	w := &expWatch{store: store, prog: names[3], future: fmt.Sprint(future), atEnd: map[string]bool{}, atLookup: map[string]bool{}}
 	watch.Store(w)
 	defer watch.Store(nil)
 	type pend struct {
@@ -451,14 +487,15 @@ func oneRun(t *testing.T, r *ev.Run, g *ev.RNG, run int, withReload bool) runRes
 			if v, ok := get("exp", names[3], k); !ok || v < 1 || v > 2 {
 				w.mu.Lock()
 				atEnd, seen := w.atEnd[k]
+				atLookup := w.atLookup[k]
 				w.mu.Unlock()
-				if seen && !atEnd {
+				if seen && !atEnd && atLookup {
 					// already gone when the refreshing line finished: collected
 					// between that line's datum lookup and its write (C11-e)
 					res.orphaned = append(res.orphaned, k)
 					continue
 				}
-				res.what = fmt.Sprintf("gc-of-live-datum: exp[%s]=%d (present=%v) although it was there, stamped ten hours ahead with expiry 1h, when the line that last wrote it finished (hook saw it: %v)", k, v, ok, seen)
+				res.what = fmt.Sprintf("gc-of-live-datum: exp[%s]=%d (present=%v) although its last write was stamped ten hours ahead with expiry 1h; in the store at that line's dload: %v, when that line finished: %v (C11-e needs: there at the dload, gone at the end)", k, v, ok, atLookup, atEnd)
 				break
 			}
 			res.expChecked++
@@ -606,8 +643,9 @@ func forcedGcBetweenLookupAndWrite(t *testing.T, r *ev.Run) {
 			_ = store.Gc()
 		}
 	}
+	prev := vm.VerifInstrHook.Load()
 	vm.VerifInstrHook.Store(&ih)
-	defer vm.VerifInstrHook.Store(nil)
+	defer vm.VerifInstrHook.Store(prev)
 	future := time.Now().Add(10 * time.Hour).Unix()
 	in <- logline.New(nil, "log", "X k 1000000")
 	in <- logline.New(nil, "log", "barrier")
@@ -775,6 +813,9 @@ func TestC11(t *testing.T) {
 	lh := func(id uint64, name string, l *logline.LogLine, phase int) {
 		if phase == 0 {
 			inProgress.Add(1)
+			if w := watch.Load(); w != nil {
+				w.lineStart(name, l)
+			}
 			jitter()
 			if stallLines.Load() {
 				if x := perturb.Add(0x9E3779B97F4A7C15) >> 33; x%3 == 0 {
@@ -790,6 +831,13 @@ func TestC11(t *testing.T) {
 	}
 	vm.VerifLineHook.Store(&lh)
 	defer vm.VerifLineHook.Store(nil)
+	ih := func(i *vm.VerifInstr) {
+		if w := watch.Load(); w != nil {
+			w.onInstr(i)
+		}
+	}
+	vm.VerifInstrHook.Store(&ih)
+	defer vm.VerifInstrHook.Store(nil)
 	runs := ev.Pick(9, 160)
 	rng := ev.NewRNG(ev.Seed(), "c11")
 	defer runtime.GOMAXPROCS(runtime.GOMAXPROCS(0))
